@@ -4,6 +4,7 @@ import (
 	"fmt"
 	"io"
 	"sort"
+	"sync"
 
 	"github.com/lugu/qiloop/bus"
 	"github.com/lugu/qiloop/bus/util"
@@ -11,7 +12,12 @@ import (
 )
 
 // serviceDirectory implements ServiceDirectoryImplementor
+// The directory is used by the remote clients (through the mailbox of
+// the object) and by the hosting server itself (through the
+// namespace and the session below): mutex protects staging, services
+// and lastID.
 type serviceDirectory struct {
+	mutex    sync.Mutex
 	staging  map[uint32]ServiceInfo
 	services map[uint32]ServiceInfo
 	lastID   uint32
@@ -58,6 +64,8 @@ func checkServiceInfo(i ServiceInfo) error {
 }
 
 func (s *serviceDirectory) info(serviceID uint32) (ServiceInfo, error) {
+	s.mutex.Lock()
+	defer s.mutex.Unlock()
 	info, ok := s.services[serviceID]
 	if !ok {
 		return info, fmt.Errorf("service %d not found", serviceID)
@@ -66,6 +74,8 @@ func (s *serviceDirectory) info(serviceID uint32) (ServiceInfo, error) {
 }
 
 func (s *serviceDirectory) Service(service string) (info ServiceInfo, err error) {
+	s.mutex.Lock()
+	defer s.mutex.Unlock()
 	for _, info = range s.services {
 		if info.Name == service {
 			return info, nil
@@ -81,6 +91,8 @@ func (a serviceList) Swap(i, j int)      { a[i], a[j] = a[j], a[i] }
 func (a serviceList) Less(i, j int) bool { return a[i].ServiceId < a[j].ServiceId }
 
 func (s *serviceDirectory) Services() ([]ServiceInfo, error) {
+	s.mutex.Lock()
+	defer s.mutex.Unlock()
 	list := make([]ServiceInfo, 0, len(s.services))
 	for _, info := range s.services {
 		list = append(list, info)
@@ -90,6 +102,8 @@ func (s *serviceDirectory) Services() ([]ServiceInfo, error) {
 }
 
 func (s *serviceDirectory) RegisterService(newInfo ServiceInfo) (uint32, error) {
+	s.mutex.Lock()
+	defer s.mutex.Unlock()
 	if err := checkServiceInfo(newInfo); err != nil {
 		return 0, err
 	}
@@ -110,6 +124,8 @@ func (s *serviceDirectory) RegisterService(newInfo ServiceInfo) (uint32, error) 
 }
 
 func (s *serviceDirectory) UnregisterService(id uint32) error {
+	s.mutex.Lock()
+	defer s.mutex.Unlock()
 	i, ok := s.services[id]
 	if ok {
 		delete(s.services, id)
@@ -128,6 +144,8 @@ func (s *serviceDirectory) UnregisterService(id uint32) error {
 }
 
 func (s *serviceDirectory) ServiceReady(id uint32) error {
+	s.mutex.Lock()
+	defer s.mutex.Unlock()
 	i, ok := s.staging[id]
 	if ok {
 		delete(s.staging, id)
@@ -142,6 +160,8 @@ func (s *serviceDirectory) ServiceReady(id uint32) error {
 }
 
 func (s *serviceDirectory) UpdateServiceInfo(i ServiceInfo) error {
+	s.mutex.Lock()
+	defer s.mutex.Unlock()
 	if err := checkServiceInfo(i); err != nil {
 		return err
 	}
